@@ -38,6 +38,14 @@ def main():
             sysm.h1(c)
             if nld.n != 0:
                 fails.append(f"neg_log_dens evaluated {nld.n} times although the gradient function returned the value")
+        # read-only snapshots are memoised as well
+        grad.n, nld.n = 0, 0
+        ro = ChainState(pos=np.array([0.7, 0.1]), mom=np.array([1.0, 0.5]), dir=1).copy(read_only=True)
+        for _ in range(4):
+            sysm.grad_neg_log_dens(ro)
+            sysm.neg_log_dens(ro)
+        if grad.n != 1 or nld.n > 1 or (returns_value and nld.n != 0):
+            fails.append(f"read-only copy: 4 repeated requests cost {grad.n} gradient / {nld.n} density evaluations (contract: 1 / {0 if returns_value else 1})")
         for cls, per in ((I.LeapfrogIntegrator, 1), (I.BCSSTwoStageIntegrator, 2), (I.BCSSThreeStageIntegrator, 3), (I.BCSSFourStageIntegrator, 4)):
             for n in (1, 5, 12):
                 grad.n = 0
